@@ -210,3 +210,33 @@ PROPS["C16"] = {'coq': 'Properties/C16.v',
  'assumptions': ['telegrams valid for the encoder: addresses 0..127, SAP/PDU bytes 0..255, length byte <= 249',
                  'fault-free clauses: the bytes seen are the concatenation of the frames; resync clause: the next telegram arrives after the discard',
                  'simulator monotonicity: bus time not before the start of the last transmission and below the u64 overflow point of time_to_bits']}
+
+PROPS["C18"] = {'coq': 'Properties/C18.v',
+ 'domains': ['scan'],
+ 'nontrivial': ['scan:L', 'scan:S', 'raw:'],
+ 'rule': 'cases = generated histories (own address, live list | DP scanner, up to 5 address sweeps, populations empty/sparse/dense/full/boundary '
+         'incl. the own address, appear/disappear/ident-change events, lost replies, other answers: SC, token, request, wrong source, wrong SAP, '
+         'short PDU, undecodable) plus RAW callback sequences outside the contract (panic sites), deduplicated; non-trivial = all of them (every '
+         'history polls the application at least once); distribution counts polls, probes, reaction classes, events and stable windows',
+ 'trusted_base': ['hand models coq/Model/LiveList.v of src/fdl/live_list.rs and coq/Model/Scan.v of src/dp/scan.rs (state, transmit_telegram / '
+                  'receive_reply / handle_timeout / take_last_event), driven by coq/Model/ScanBase.v in the call order the FDL layer guarantees '
+                  "(C15), tied by differential execution on this run's histories",
+                  'bitvec BitArr!(for 128) modelled as a Z bit mask with get -> None / set -> panic beyond 128',
+                  'cargo feature verif-hooks: DpScanner::verif_iter_stations (read-only view of the private station set)'],
+ 'technique': 'Coq proof (induction over arbitrary histories on Gallina models of LiveList and DpScanner) + differential correspondence (transcript '
+              'replay)',
+ 'level_text': 'Machine-checked theorems (Coq 8.16.1, closed under the global context), by induction over ARBITRARY histories (lists of environment '
+               'reactions as functions of the probed address) and from any state with the cursor in range, about Gallina models of LiveList and '
+               'DpScanner driven in the FDL call order: no panic; only 0..125 probed, +1 per completed probe, wrap 125->0 (closed form c+i mod 126); '
+               "after any history and one stable sweep (a fortiori two) the live list is exactly R minus TS and the scanner's station set and last "
+               "reported ident/master are exactly the answering peripherals'; every event is justified by the observation of its poll; the station "
+               'set always equals the set told by the events (Discovered/Found and Lost strictly alternate per address) - for the live list under '
+               'the stated hypothesis that answers are response telegrams, with the O1 deviation (bare SC marks without Discovered) proved as the '
+               'only one and exhibited. Both models are tied to the crate on every run by replaying ~3600 generated histories (~600k polls: '
+               'appear/disappear/ident change, lost replies, SC/token/request/wrong-SAP/short/undecodable answers, own address in the population) '
+               "and comparing every request (wire bytes), event and station set; the oracle suite run on the crate's transcripts is itself proved to "
+               'hold of every model transcript (C18_oracle_sound), so an oracle failure can only come from the crate.',
+ 'level_note': 'Trusted: Coq kernel, translator, extraction + OCaml driver, Rust harness (which also plays the environment); hand models validated '
+               'differentially, not verified; the FDL call contract (C15) is an assumption here.',
+ 'design_ref': 'DESIGN.md section 4, C18',
+ 'assumptions': ['callbacks arrive in the order of the C15 contract', 'own address 0..125', 'events are collected after every callback']}
